@@ -1,11 +1,14 @@
 """C18 — object-model instances are isolated and observers do not mutate."""
 import io
 import json
+import re
 
 import common
 import domadapt
 from props import base
 from props.base import Context  # noqa: F401
+
+FOREIGN_META = re.compile(rb'^(#\.{1,3}meta: )format=json, length=', re.M)
 
 PID = 'C18'
 TIE_MODULES = ['DiffxVerif.Tie.Dom']
@@ -85,10 +88,13 @@ class World(object):
             t, p, kk = op[1:].split('.')
             d = self.callers.setdefault(int(kk), {'caller': int(kk)})
             section_at(self.trees[int(t)], p).meta = d
-        elif k == 'P':
+        elif k in 'PQ':
             d = self.trees[int(op[1:])]
             try:
                 data = self.serialise(d)
+                if k == 'Q':
+                    # the same file as another producer may write it: `format` is optional
+                    data = FOREIGN_META.sub(rb'\1length=', data)
                 new = self.reader.parse(io.BytesIO(data))
             except Exception:   # noqa  (tree not serialisable: the operation is skipped)
                 return False, bad
@@ -151,7 +157,7 @@ def gen_ops(rng, n):
             elif r < 0.56:
                 op = 'M%d.%s.%d' % (t, rng.choice(w.paths(t)), rng.randrange(6))
             elif r < 0.68 and len(w.trees) < 6:
-                op = 'P%d' % t
+                op = '%s%d' % (rng.choice('PPQ'), t)
             elif r < 0.78:
                 op = 'O%d' % t
             else:
@@ -178,7 +184,8 @@ class Spec(object):
                 yield tuple(ops[:i])
 
     def request(self, case):
-        return 'heap ' + ' '.join(case)
+        # parsing a foreign rendering (Q) allocates like parsing the library's own bytes (P)
+        return 'heap ' + ' '.join('P' + op[1:] if op[0] == 'Q' else op for op in case)
 
     def run(self, case):
         w = World()
